@@ -149,7 +149,14 @@ pub fn sch<const K: u8>() -> Schema {
         7 => union(vec![Schema::Null, Schema::Int]),
         8 => Schema::Long,
         9 => Schema::Int,
-        _ => union(vec![Schema::Null, Schema::Long, Schema::String]),
+        10 => union(vec![Schema::Null, Schema::Long, Schema::String]),
+        // records (all named R): 11 {a: long}; 12 {a: long, x: long default 5}; 13 {a: long, x: long} (no default);
+        // 14 {a: long, b: boolean}; 15 {b: boolean, a: long}
+        11 => crate::schemas::record("R", vec![crate::schemas::field("a", Schema::Long)]),
+        12 => crate::schemas::record("R", vec![crate::schemas::field("a", Schema::Long), field_d("x", Schema::Long, Some(serde_json::Value::Number(5.into())))]),
+        13 => crate::schemas::record("R", vec![crate::schemas::field("a", Schema::Long), crate::schemas::field("x", Schema::Long)]),
+        14 => crate::schemas::record("R", vec![crate::schemas::field("a", Schema::Long), crate::schemas::field("b", Schema::Boolean)]),
+        _ => crate::schemas::record("R", vec![crate::schemas::field("b", Schema::Boolean), crate::schemas::field("a", Schema::Long)]),
     }
 }
 /// number of distinct values (up to the symbolic numeric payload) writable with schema kind K
@@ -198,6 +205,10 @@ fn val<const K: u8, const J: u8>(n: i64) -> Value {
         (7, 1) => Value::Union(1, Box::new(Value::Int(n as i32))),
         (10, 2) => Value::Union(2, boxed_string("s")),
         (8, 0) => Value::Long(n),
+        (11, 0) => Value::Record(vec![("a".to_string(), Value::Long(n))]),
+        (12, 0) | (13, 0) => Value::Record(vec![("a".to_string(), Value::Long(n)), ("x".to_string(), Value::Long(n ^ 1))]),
+        (14, 0) => Value::Record(vec![("a".to_string(), Value::Long(n)), ("b".to_string(), Value::Boolean(n & 1 == 1))]),
+        (15, 0) => Value::Record(vec![("b".to_string(), Value::Boolean(n & 1 == 1)), ("a".to_string(), Value::Long(n))]),
         _ => Value::Int(n as i32),
     }
 }
@@ -323,6 +334,11 @@ pair_harness!(union_wrap, 8, 6, true, true, "long read as union[null,long] (alwa
 pair_harness!(union_unwrap, 6, 8, false, false, "union[null,long] read as long: null cannot be read");
 pair_harness!(union_branch_promoted, 7, 6, true, true, "union[null,int] read as union[null,long] (always safe)");
 pair_harness!(union_wrap_promoted, 9, 6, true, true, "int read as union[null,long] (always safe)");
+// records
+pair_harness!(record_reader_field_added_with_default, 11, 12, true, true, "record {a} read as {a, x default 5} (always safe)");
+pair_harness!(record_field_removed, 12, 11, true, true, "record {a, x} read as {a} (always safe)");
+pair_harness!(record_fields_reordered, 14, 15, true, true, "record {a, b} read as {b, a} (always safe)");
+pair_harness!(record_reader_field_added_without_default, 11, 13, false, false, "record {a} read as {a, x} without default: x cannot be filled");
 
 pub const HARNESSES: &[(&str, fn())] = &[
     ("c09::from_int", from_int::body),
@@ -348,4 +364,8 @@ pub const HARNESSES: &[(&str, fn())] = &[
     ("c09::union_unwrap", union_unwrap::body),
     ("c09::union_branch_promoted", union_branch_promoted::body),
     ("c09::union_wrap_promoted", union_wrap_promoted::body),
+    ("c09::record_reader_field_added_with_default", record_reader_field_added_with_default::body),
+    ("c09::record_field_removed", record_field_removed::body),
+    ("c09::record_fields_reordered", record_fields_reordered::body),
+    ("c09::record_reader_field_added_without_default", record_reader_field_added_without_default::body),
 ];
